@@ -40,6 +40,9 @@
                                 allowed); events, flag lookups, outcome: `evaluate_rules_events`
     any top-level name ........ `evaluate_unreferenced_top`, `evaluate_change_name`, `evaluate_change_anonymous`,
                                 `evaluate_remove_unreferenced_attribute` (section 8; whole `Obs` equal)
+    stored flags' metadata .... `stored_metadata`, `stored_metadata_both` (section 9; Spec result);
+                                `evaluate_stored_metadata(_both)` (section 10; whole `Obs`, for everything
+                                but the version / excludeFromSummaries that prerequisite events report)
     NOT invariant (F6) ........ `clause_order_observable`; `shortcut_observable` for `ShortcutNeutral`
 
   A caveat that the proofs make precise (7): turning a *single `user`* context into a
@@ -2388,6 +2391,476 @@ theorem name_observable :
 #print axioms evaluate_change_anonymous
 #print axioms evaluate_remove_unreferenced_attribute
 #print axioms name_observable
+
+/-! ## 9. Metadata of flags held in the store (Spec level)
+
+  C20 (metadata, continued) — the metadata of flags *held in the store* (reached as prerequisites)
+  is irrelevant to the Spec result.
+
+  `C20.metadata` / `metadata_excludeFromSummaries` say that the Spec never reads the metadata of the
+  flag being evaluated.  Here the same is shown for every flag of the store at once: pushing all
+  stored flags through any function `g` that changes nothing but `fmeta` / `excludeFromSummaries`
+  (lookup keys unchanged) leaves `Spec.evalFlag` unchanged — `stored_metadata`; and also when the
+  evaluated flag itself goes through `g` — `stored_metadata_both`.
+
+  This is the Spec-level (result) form; at the entry point the version, track-events setting and
+  `excludeFromSummaries` of a prerequisite flag are copied into its prerequisite event, so the full
+  observation is invariant only modulo those event fields (harness families `metadata-store` and
+  `metadata-store-reported`).
+-/
+
+
+/-- `g` changes nothing but metadata. -/
+def MetaOnly (g : Flag → Flag) : Prop := ∀ fl, ∃ m b, g fl = withMeta fl m b
+
+/-- The environment whose stored flags all went through `g` (lookup keys unchanged). -/
+def remetaStore (env : Env) (g : Flag → Flag) : Env :=
+  { env with store := { env.store with flags := env.store.flags.map (fun p => (p.1, g p.2)) } }
+
+section StoreMeta
+variable {env : Env} {g : Flag → Flag}
+
+/-! ### Lookups -/
+
+theorem findFlag_remeta (env : Env) (g : Flag → Flag) (k : String) :
+    (remetaStore env g).store.findFlag k = (env.store.findFlag k).map g := by
+  show (((env.store.flags.map (fun p => (p.1, g p.2))).find? (·.1 == k)).map (·.2)) =
+    ((env.store.flags.find? (·.1 == k)).map (·.2)).map g
+  induction env.store.flags with
+  | nil => rfl
+  | cons p ps ih =>
+    simp only [List.map_cons, List.find?_cons]
+    cases p.1 == k
+    · exact ih
+    · rfl
+
+theorem findSegment_remeta (env : Env) (g : Flag → Flag) (k : String) :
+    (remetaStore env g).store.findSegment k = env.store.findSegment k := rfl
+
+/-! ### Everything that does not read `store.flags` -/
+
+theorem segMatchValues_remeta (rec : Spec.SegRec) (negate : Bool) (chain : List String) :
+    ∀ vs, Spec.segMatchValues rec (remetaStore env g) negate chain vs =
+      Spec.segMatchValues rec env negate chain vs := by
+  intro vs
+  induction vs with
+  | nil => rfl
+  | cons v vs ih =>
+    cases v with
+    | str k =>
+      simp only [Spec.segMatchValues]
+      show (match env.store.findSegment k with | none => _ | some seg => _) = _
+      cases hf : env.store.findSegment k with
+      | none => exact ih
+      | some seg => simp only [ih]
+    | null => simp only [Spec.segMatchValues]; exact ih
+    | bool b => simp only [Spec.segMatchValues]; exact ih
+    | num q => simp only [Spec.segMatchValues]; exact ih
+    | arr xs => simp only [Spec.segMatchValues]; exact ih
+    | obj kvs => simp only [Spec.segMatchValues]; exact ih
+    | raw w => simp only [Spec.segMatchValues]; exact ih
+
+theorem clauseMatch_remeta (rec : Spec.SegRec) (chain : List String) (c : Clause) :
+    Spec.clauseMatch rec (remetaStore env g) chain c = Spec.clauseMatch rec env chain c := by
+  unfold Spec.clauseMatch
+  rw [segMatchValues_remeta]
+  rfl
+
+theorem clausesMatch_remeta (rec : Spec.SegRec) (chain : List String) :
+    ∀ cs, Spec.clausesMatch rec (remetaStore env g) chain cs = Spec.clausesMatch rec env chain cs := by
+  intro cs
+  induction cs with
+  | nil => rfl
+  | cons c cs ih => simp only [Spec.clausesMatch, clauseMatch_remeta, ih]
+
+theorem segRuleMatch_remeta (rec : Spec.SegRec) (chain : List String) (key salt : String)
+    (r : SegmentRule) :
+    Spec.segRuleMatch rec (remetaStore env g) chain key salt r =
+      Spec.segRuleMatch rec env chain key salt r := by
+  unfold Spec.segRuleMatch
+  rw [clausesMatch_remeta]
+  rfl
+
+theorem segRules_remeta (rec : Spec.SegRec) (chain : List String) (s : Segment) :
+    ∀ rs, Spec.segRules rec (remetaStore env g) chain s rs = Spec.segRules rec env chain s rs := by
+  intro rs
+  induction rs with
+  | nil => rfl
+  | cons r rs ih => simp only [Spec.segRules, segRuleMatch_remeta, ih]
+
+theorem segBody_remeta (rec : Spec.SegRec) (s : Segment) (chain : List String) :
+    Spec.segBody rec (remetaStore env g) s chain = Spec.segBody rec env s chain := by
+  unfold Spec.segBody
+  simp only [segRules_remeta]
+  rfl
+
+theorem segContains_remeta (env : Env) (g : Flag → Flag) (n : Nat) :
+    Spec.segContains n (remetaStore env g) = Spec.segContains n env := by
+  induction n with
+  | zero => rfl
+  | succ n ih =>
+    funext s chain
+    show Spec.segBody (Spec.segContains n (remetaStore env g)) (remetaStore env g) s chain = _
+    rw [ih, segBody_remeta]
+    rfl
+
+theorem variationOrRollout_remeta (vr : VariationOrRollout) (key salt : String) :
+    variationOrRollout (remetaStore env g) vr key salt = variationOrRollout env vr key salt := rfl
+
+theorem getValueForVR_remeta (f : Flag) (vr : VariationOrRollout) (r : Reason) :
+    Spec.getValueForVR (remetaStore env g) f vr r = Spec.getValueForVR env f vr r := rfl
+
+theorem rulesLoop_remeta (seg : Spec.SegRec) (f : Flag) :
+    ∀ rs i, Spec.rulesLoop seg (remetaStore env g) f rs i = Spec.rulesLoop seg env f rs i := by
+  intro rs
+  induction rs with
+  | nil => intro i; rfl
+  | cons r rs ih =>
+    intro i
+    simp only [Spec.rulesLoop, clausesMatch_remeta, getValueForVR_remeta, ih]
+
+/-! ### The part that does read `store.flags` -/
+
+theorem MetaOnly.key (hg : MetaOnly g) (fl : Flag) : (g fl).key = fl.key := by
+  obtain ⟨m, b, h⟩ := hg fl; rw [h]; rfl
+
+theorem MetaOnly.on (hg : MetaOnly g) (fl : Flag) : (g fl).on = fl.on := by
+  obtain ⟨m, b, h⟩ := hg fl; rw [h]; rfl
+
+/-- The prerequisite loop over the re-metadata'd store, for any two recursive evaluators that
+agree modulo `g`. -/
+theorem prereqLoop_remeta (hg : MetaOnly g) {rec rec' : Spec.FlagRec}
+    (hrec : ∀ pf chain, rec' (g pf) chain = rec pf chain) (chain : List String) :
+    ∀ ps, Spec.prereqLoop rec' (remetaStore env g) chain ps = Spec.prereqLoop rec env chain ps := by
+  intro ps
+  induction ps with
+  | nil => rfl
+  | cons p ps ih =>
+    simp only [Spec.prereqLoop, findFlag_remeta]
+    cases hf : env.store.findFlag p.key with
+    | none => rfl
+    | some pf => simp only [Option.map_some, hg.key, hg.on, hrec, ih]
+
+theorem evalBody_remeta (hg : MetaOnly g) {rec rec' : Spec.FlagRec}
+    (hrec : ∀ pf chain, rec' (g pf) chain = rec pf chain) (seg : Spec.SegRec)
+    (f : Flag) (chain : List String) :
+    Spec.evalBody rec' seg (remetaStore env g) f chain = Spec.evalBody rec seg env f chain := by
+  unfold Spec.evalBody Spec.checkPrereqs
+  simp only [prereqLoop_remeta hg hrec, rulesLoop_remeta]
+  rfl
+
+end StoreMeta
+
+/-- The Spec never reads the evaluated flag's `fmeta` / `excludeFromSummaries` (both at once). -/
+theorem evalFlag_withMeta (sf n : Nat) (env : Env) (f : Flag) (m : FlagMeta) (b : Bool)
+    (chain : List String) :
+    Spec.evalFlag sf n env (withMeta f m b) chain = Spec.evalFlag sf n env f chain := by
+  cases n with
+  | zero => rfl
+  | succ n => exact evalBody_withMeta _ f m b chain
+
+theorem evalFlag_metaOnly {g : Flag → Flag} (hg : MetaOnly g) (sf n : Nat) (env : Env) (f : Flag)
+    (chain : List String) :
+    Spec.evalFlag sf n env (g f) chain = Spec.evalFlag sf n env f chain := by
+  obtain ⟨m, b, h⟩ := hg f
+  rw [h]
+  exact evalFlag_withMeta sf n env f m b chain
+
+/-- **Stored metadata.**  Changing the metadata (`fmeta`, `excludeFromSummaries`) of every flag
+held in the store — the flags reached as prerequisites — does not change the result. -/
+theorem stored_metadata (env : Env) (g : Flag → Flag) (hg : MetaOnly g) (sf n : Nat) (f : Flag)
+    (chain : List String) :
+    Spec.evalFlag sf n (remetaStore env g) f chain = Spec.evalFlag sf n env f chain := by
+  induction n generalizing f chain with
+  | zero => rfl
+  | succ n ih =>
+    show Spec.evalBody (Spec.evalFlag sf n (remetaStore env g))
+      (Spec.segContains sf (remetaStore env g)) (remetaStore env g) f chain = _
+    rw [segContains_remeta]
+    exact evalBody_remeta hg
+      (fun pf ch => (evalFlag_metaOnly hg sf n (remetaStore env g) pf ch).trans (ih pf ch)) _ f chain
+
+/-- … also when the evaluated flag itself went through `g` (e.g. it is one of the stored flags). -/
+theorem stored_metadata_both (env : Env) (g : Flag → Flag) (hg : MetaOnly g) (sf n : Nat) (f : Flag)
+    (chain : List String) :
+    Spec.evalFlag sf n (remetaStore env g) (g f) chain = Spec.evalFlag sf n env f chain :=
+  (evalFlag_metaOnly hg sf n (remetaStore env g) f chain).trans (stored_metadata env g hg sf n f chain)
+
+/-! ### Non-vacuity -/
+
+/-- A concrete `g` that bumps the version, flips `deleted` and flips `excludeFromSummaries`. -/
+def bumpMeta (fl : Flag) : Flag :=
+  withMeta fl { fl.fmeta with version := fl.fmeta.version + 1, deleted := !fl.fmeta.deleted }
+    (!fl.excludeFromSummaries)
+
+theorem bumpMeta_metaOnly : MetaOnly bumpMeta := fun _ => ⟨_, _, rfl⟩
+
+/-- `bumpMeta` satisfies `MetaOnly` and is not the identity (it changes every flag). -/
+example : MetaOnly bumpMeta ∧ ∀ fl, bumpMeta fl ≠ fl := by
+  refine ⟨bumpMeta_metaOnly, fun fl h => ?_⟩
+  have h' : (bumpMeta fl).excludeFromSummaries = fl.excludeFromSummaries := by rw [h]
+  have h'' : (!fl.excludeFromSummaries) = fl.excludeFromSummaries := h'
+  cases hb : fl.excludeFromSummaries <;> rw [hb] at h'' <;> cases h''
+
+/-- The store really changes: a store with one flag, after `bumpMeta`, holds a different version. -/
+example :
+    let env : Env := { opts := {}, store := { flags := [("a", { key := "a" })] }, bs := none,
+                       ctx := .invalid, rx := default }
+    ((remetaStore env bumpMeta).store.findFlag "a").map (·.fmeta.version) = some 1 ∧
+    (env.store.findFlag "a").map (·.fmeta.version) = some 0 := by
+  decide
+
+example (env : Env) (sf n : Nat) (f : Flag) (chain : List String) :
+    Spec.evalFlag sf n (remetaStore env bumpMeta) (bumpMeta f) chain = Spec.evalFlag sf n env f chain :=
+  stored_metadata_both env bumpMeta bumpMeta_metaOnly sf n f chain
+
+#print axioms stored_metadata
+#print axioms stored_metadata_both
+
+/-! ## 10. Metadata of flags held in the store (entry point, whole observation)
+
+  C20 (metadata, continued) — the metadata of flags *held in the store*, at the entry point.
+
+  Section 9 of `C20.lean` shows that the Spec result does not depend on the metadata of stored flags.
+  Here the same is shown for the stateful model and the WHOLE observation of `LD.evaluate`, for every
+  `g` that changes only metadata that is not copied into a prerequisite event (everything in `fmeta`
+  except `version`).
+-/
+
+
+/-- `g` changes only metadata that is neither read by evaluation nor copied into a prerequisite
+event: everything in `fmeta` except `version` (deleted, client-side availability, track-events,
+debug date, sampling ratio, migration). -/
+def MetaUnreported (g : Flag → Flag) : Prop :=
+  ∀ fl, ∃ m, g fl = withMeta fl m fl.excludeFromSummaries ∧ m.version = fl.fmeta.version
+
+section StoreMetaModel
+variable {env : Env} {g : Flag → Flag}
+
+theorem MetaUnreported.metaOnly (hg : MetaUnreported g) : MetaOnly g := fun fl => by
+  obtain ⟨m, h, _⟩ := hg fl
+  exact ⟨m, _, h⟩
+
+/-! ### Fuel -/
+
+theorem segFuel_remeta (env : Env) (g : Flag → Flag) :
+    segFuel (remetaStore env g).store = segFuel env.store := rfl
+
+theorem flagFuel_remeta (hg : MetaOnly g) (env : Env) :
+    flagFuel (remetaStore env g).store = flagFuel env.store := by
+  show distinctCount ((env.store.flags.map (fun p => (p.1, g p.2))).map (·.2.key)) + 2 =
+    distinctCount (env.store.flags.map (·.2.key)) + 2
+  rw [List.map_map]
+  have : ((fun p : String × Flag => p.2.key) ∘ fun p : String × Flag => (p.1, g p.2)) =
+      (fun p : String × Flag => p.2.key) := by
+    funext p
+    exact hg.key p.2
+  rw [this]
+
+/-! ### Everything that does not read `store.flags` -/
+
+theorem m_segMatchValues_remeta (rec : LD.SegRec) (negate : Bool) (chain : List String) :
+    ∀ vs st, LD.segMatchValues rec (remetaStore env g) negate chain vs st =
+      LD.segMatchValues rec env negate chain vs st := by
+  intro vs
+  induction vs with
+  | nil => intro st; rfl
+  | cons v vs ih =>
+    intro st
+    cases v with
+    | str k =>
+      simp only [LD.segMatchValues]
+      show (match env.store.findSegment k with | none => _ | some seg => _) = _
+      cases hf : env.store.findSegment k with
+      | none => exact ih _
+      | some seg => simp only [ih]
+    | null => simp only [LD.segMatchValues]; exact ih _
+    | bool b => simp only [LD.segMatchValues]; exact ih _
+    | num q => simp only [LD.segMatchValues]; exact ih _
+    | arr xs => simp only [LD.segMatchValues]; exact ih _
+    | obj kvs => simp only [LD.segMatchValues]; exact ih _
+    | raw w => simp only [LD.segMatchValues]; exact ih _
+
+theorem m_clauseMatch_remeta (rec : LD.SegRec) (chain : List String) (c : Clause) (st : St) :
+    LD.clauseMatch rec (remetaStore env g) chain c st = LD.clauseMatch rec env chain c st := by
+  unfold LD.clauseMatch
+  rw [m_segMatchValues_remeta]
+  rfl
+
+theorem m_clausesMatch_remeta (rec : LD.SegRec) (chain : List String) :
+    ∀ cs st, LD.clausesMatch rec (remetaStore env g) chain cs st =
+      LD.clausesMatch rec env chain cs st := by
+  intro cs
+  induction cs with
+  | nil => intro st; rfl
+  | cons c cs ih => intro st; simp only [LD.clausesMatch, m_clauseMatch_remeta, ih]
+
+theorem m_segRuleMatch_remeta (rec : LD.SegRec) (chain : List String) (key salt : String)
+    (r : SegmentRule) (st : St) :
+    LD.segRuleMatch rec (remetaStore env g) chain key salt r st =
+      LD.segRuleMatch rec env chain key salt r st := by
+  unfold LD.segRuleMatch
+  rw [m_clausesMatch_remeta]
+  rfl
+
+theorem m_segRules_remeta (rec : LD.SegRec) (chain : List String) (s : Segment) :
+    ∀ rs st, LD.segRules rec (remetaStore env g) chain s rs st = LD.segRules rec env chain s rs st := by
+  intro rs
+  induction rs with
+  | nil => intro st; rfl
+  | cons r rs ih => intro st; simp only [LD.segRules, m_segRuleMatch_remeta, ih]
+
+theorem m_bigSegMembership_remeta (key : String) (st : St) :
+    LD.bigSegMembership (remetaStore env g) key st = LD.bigSegMembership env key st := rfl
+
+theorem m_segBody_remeta (rec : LD.SegRec) (s : Segment) (chain : List String) (st : St) :
+    LD.segBody rec (remetaStore env g) s chain st = LD.segBody rec env s chain st := by
+  unfold LD.segBody
+  simp only [m_segRules_remeta, m_bigSegMembership_remeta]
+  rfl
+
+theorem m_segContains_remeta (env : Env) (g : Flag → Flag) (n : Nat) :
+    LD.segContains n (remetaStore env g) = LD.segContains n env := by
+  induction n with
+  | zero => rfl
+  | succ n ih =>
+    funext s chain st
+    show LD.segBody (LD.segContains n (remetaStore env g)) (remetaStore env g) s chain st = _
+    rw [ih, m_segBody_remeta]
+    rfl
+
+theorem m_logErr_remeta (k : String) (e : EvalErr) (st : St) :
+    LD.logErr (remetaStore env g) k e st = LD.logErr env k e st := rfl
+
+theorem m_getVariation_remeta (f : Flag) (i : Int) (r : Reason) (st : St) :
+    LD.getVariation (remetaStore env g) f i r st = LD.getVariation env f i r st := rfl
+
+theorem m_getOffValue_remeta (f : Flag) (r : Reason) (st : St) :
+    LD.getOffValue (remetaStore env g) f r st = LD.getOffValue env f r st := rfl
+
+theorem m_getValueForVR_remeta (f : Flag) (vr : VariationOrRollout) (r : Reason) (st : St) :
+    LD.getValueForVR (remetaStore env g) f vr r st = LD.getValueForVR env f vr r st := rfl
+
+theorem m_rulesLoop_remeta (seg : LD.SegRec) (f : Flag) :
+    ∀ rs i st, LD.rulesLoop seg (remetaStore env g) f rs i st = LD.rulesLoop seg env f rs i st := by
+  intro rs
+  induction rs with
+  | nil => intro i st; rfl
+  | cons r rs ih =>
+    intro i st
+    simp only [LD.rulesLoop, m_clausesMatch_remeta, m_getValueForVR_remeta, m_logErr_remeta, ih]
+
+/-! ### The part that does read `store.flags` -/
+
+theorem MetaUnreported.version (hg : MetaUnreported g) (fl : Flag) :
+    (g fl).fmeta.version = fl.fmeta.version := by
+  obtain ⟨m, h, hv⟩ := hg fl; rw [h]; exact hv
+
+theorem MetaUnreported.exclude (hg : MetaUnreported g) (fl : Flag) :
+    (g fl).excludeFromSummaries = fl.excludeFromSummaries := by
+  obtain ⟨m, h, _⟩ := hg fl; rw [h]; rfl
+
+theorem MetaUnreported.isExperimentResult (hg : MetaUnreported g) (fl : Flag) (r : Reason) :
+    LD.isExperimentResult (g fl) r = LD.isExperimentResult fl r := by
+  obtain ⟨m, h, _⟩ := hg fl; rw [h]; rfl
+
+/-- The prerequisite loop over the re-metadata'd store, for any two recursive evaluators that
+agree modulo `g`. -/
+theorem m_prereqLoop_remeta (hg : MetaUnreported g) {rec rec' : LD.FlagRec}
+    (hrec : ∀ pf chain st, rec' (g pf) chain st = rec pf chain st) (f : Flag) (chain : List String) :
+    ∀ ps st, LD.prereqLoop rec' (remetaStore env g) f chain ps st =
+      LD.prereqLoop rec env f chain ps st := by
+  intro ps
+  induction ps with
+  | nil => intro st; rfl
+  | cons p ps ih =>
+    intro st
+    simp only [LD.prereqLoop, findFlag_remeta]
+    cases hf : env.store.findFlag p.key with
+    | none => rfl
+    | some pf =>
+      simp only [Option.map_some, hg.metaOnly.key, hg.metaOnly.on, hg.version, hg.exclude,
+        hg.isExperimentResult, hrec, ih, m_logErr_remeta]
+      rfl
+
+theorem m_evalBody_remeta (hg : MetaUnreported g) {rec rec' : LD.FlagRec}
+    (hrec : ∀ pf chain st, rec' (g pf) chain st = rec pf chain st) (seg : LD.SegRec)
+    (f : Flag) (chain : List String) (st : St) :
+    LD.evalBody rec' seg (remetaStore env g) f chain st = LD.evalBody rec seg env f chain st := by
+  unfold LD.evalBody LD.checkPrereqs
+  simp only [m_prereqLoop_remeta hg hrec, m_rulesLoop_remeta, m_getOffValue_remeta,
+    m_getVariation_remeta]
+  rfl
+
+end StoreMetaModel
+
+/-- The model never reads the evaluated flag's `fmeta` / `excludeFromSummaries`. -/
+theorem m_evalFlag_withMeta (sf n : Nat) (env : Env) (f : Flag) (m : FlagMeta) (b : Bool)
+    (chain : List String) (st : St) :
+    LD.evalFlag sf n env (withMeta f m b) chain st = LD.evalFlag sf n env f chain st := by
+  cases n with
+  | zero => rfl
+  | succ n => exact m_evalBody_withMeta _ f m b chain st
+
+theorem m_evalFlag_metaOnly {g : Flag → Flag} (hg : MetaOnly g) (sf n : Nat) (env : Env) (f : Flag)
+    (chain : List String) (st : St) :
+    LD.evalFlag sf n env (g f) chain st = LD.evalFlag sf n env f chain st := by
+  obtain ⟨m, b, h⟩ := hg f
+  rw [h]
+  exact m_evalFlag_withMeta sf n env f m b chain st
+
+/-- **Stored metadata, model.**  Result and final state (events, logs, lookups, queries) of the
+stateful evaluator are unchanged. -/
+theorem m_stored_metadata (env : Env) (g : Flag → Flag) (hg : MetaUnreported g) (sf n : Nat)
+    (f : Flag) (chain : List String) (st : St) :
+    LD.evalFlag sf n (remetaStore env g) f chain st = LD.evalFlag sf n env f chain st := by
+  induction n generalizing f chain st with
+  | zero => rfl
+  | succ n ih =>
+    show LD.evalBody (LD.evalFlag sf n (remetaStore env g))
+      (LD.segContains sf (remetaStore env g)) (remetaStore env g) f chain st = _
+    rw [m_segContains_remeta]
+    exact m_evalBody_remeta hg
+      (fun pf ch s => (m_evalFlag_metaOnly hg.metaOnly sf n (remetaStore env g) pf ch s).trans
+        (ih pf ch s)) _ f chain st
+
+/-- **Stored metadata, entry point.**  The WHOLE observation of `Evaluate` (result, status, experiment bit,
+prerequisite events, log lines, lookups, big-segment queries) is unchanged. -/
+theorem evaluate_stored_metadata (env : Env) (g : Flag → Flag) (hg : MetaUnreported g) (f : Flag) :
+    evaluate (remetaStore env g) f = evaluate env f := by
+  unfold evaluate
+  rw [segFuel_remeta, flagFuel_remeta hg.metaOnly, m_stored_metadata env g hg]
+  rfl
+
+theorem evaluate_stored_metadata_both (env : Env) (g : Flag → Flag) (hg : MetaUnreported g) (f : Flag) :
+    evaluate (remetaStore env g) (g f) = evaluate env f := by
+  obtain ⟨m, h, _⟩ := hg f
+  rw [h, evaluate_withMeta]
+  exact evaluate_stored_metadata env g hg f
+
+/-! ### Non-vacuity -/
+
+/-- A concrete `g` that flips `deleted` and moves the debug date (the version stays). -/
+def touchMeta (fl : Flag) : Flag :=
+  withMeta fl { fl.fmeta with deleted := !fl.fmeta.deleted,
+                              debugEventsUntilDate := fl.fmeta.debugEventsUntilDate + 1 }
+    fl.excludeFromSummaries
+
+theorem touchMeta_unreported : MetaUnreported touchMeta := fun _ => ⟨_, rfl, rfl⟩
+
+/-- `touchMeta` satisfies `MetaUnreported` and is not the identity (it changes every flag). -/
+example : MetaUnreported touchMeta ∧ ∀ fl, touchMeta fl ≠ fl := by
+  refine ⟨touchMeta_unreported, fun fl h => ?_⟩
+  have h' : (touchMeta fl).fmeta.deleted = fl.fmeta.deleted := by rw [h]
+  have h'' : (!fl.fmeta.deleted) = fl.fmeta.deleted := h'
+  cases hb : fl.fmeta.deleted <;> rw [hb] at h'' <;> cases h''
+
+example (env : Env) (f : Flag) :
+    evaluate (remetaStore env touchMeta) (touchMeta f) = evaluate env f :=
+  evaluate_stored_metadata_both env touchMeta touchMeta_unreported f
+
+#print axioms evaluate_stored_metadata
+#print axioms evaluate_stored_metadata_both
 
 end LD.C20
 
